@@ -37,12 +37,16 @@ Step ==
               /\ IF e.fault THEN (e.res = "terr" /\ UNCHANGED <<conn, rbuf, eof, ioerr, poisoned>>)
                  ELSE (e.res = "ok" /\ conn' = "connected" /\ rbuf' = <<>> /\ eof' = FALSE /\ ioerr' = FALSE /\ poisoned' = FALSE)
               /\ UNCHANGED pend
+         [] e.op = "connect_hang" ->
+              \* the peer never answered: the attempt is still pending after an hour, or failed as a transport error
+              e.res \in {"pending", "terr"} /\ UNCHANGED <<conn, rbuf, eof, ioerr, poisoned, pend>>
          [] e.op \in {"read_unconnected", "write_unconnected"} ->
               e.res = "terr" /\ UNCHANGED <<conn, rbuf, eof, ioerr, poisoned, pend>>
          [] e.op = "feed" -> rbuf' = rbuf \o e.bytes /\ UNCHANGED <<conn, eof, ioerr, poisoned, pend>>
          [] e.op = "eof" -> eof' = TRUE /\ UNCHANGED <<conn, rbuf, ioerr, poisoned, pend>>
          [] e.op = "ioerror" -> ioerr' = TRUE /\ UNCHANGED <<conn, rbuf, eof, poisoned, pend>>
          [] e.op = "read_start" -> pend' = pend + 1 /\ UNCHANGED <<conn, rbuf, eof, ioerr, poisoned>>
+         [] e.op = "read_cancelled" -> pend' = pend - 1 /\ UNCHANGED <<conn, rbuf, eof, ioerr, poisoned>>   \* gave up: no byte consumed
          [] e.op = "read_done" -> ReadDoneOK(e) /\ pend' = pend - 1 /\ UNCHANGED <<conn, eof, ioerr>>
          [] e.op = "write" ->
               /\ IF e.fault = "none" THEN (e.res = "ok" /\ e.peer = Utf8Encode(e.s)) ELSE e.res = "terr"
